@@ -205,19 +205,18 @@ def check_algebraic_system(ex, reg, src, name, m):
     ctx = Ctx(fi, None, fi.cls, tag="algebraic_system[%s]" % name)
     paths = ex.call_function(fi, [selfobj, K, UFunc("rhs", "lincomb"), t, y, h, consts], {}, st, ctx)
     pre = "%s/algebraic_system[%s]/" % (PID, name)
-    if len(paths) != 1 or isinstance(paths[0][1], Raised):
-        reg.undecided(pre + "single-path", "unsupported", "algebraic_system", "paths=%d" % len(paths))
-        return
-    res = paths[0][1]
     want = []
     for i in range(n):
         acc = LinComb.zero()
         for j in range(n):
             acc = acc + K.items[j].scale(h * T.rows[i][1 + j])
         want.append(K.items[i] - LinComb.app("rhs", t + h * T.rows[i][0], y + acc))
-    got = list(res.items) if isinstance(res, ConcVec) else None
-    reg.ground(pre + "defining-stage-system", "post", "algebraic_system", got == want, backend="lincomb-exact",
-               detail="F(K)_i == K_i - rhs(t + c_i h, y + h sum_j a_ij K_j) for all %d stages (fully implicit sum over all j)" % n)
+    if not paths:
+        reg.undecided(pre + "paths", "unsupported", "algebraic_system", "no path")
+    for k, (s_, res) in enumerate(paths):
+        got = list(res.items) if isinstance(res, ConcVec) else None
+        reg.ground(pre + "defining-stage-system" + ("#path%d" % k if len(paths) > 1 else ""), "post", "algebraic_system", (not isinstance(res, Raised)) and got == want, backend="lincomb-exact",
+                   detail="F(K)_i == K_i - rhs(t + c_i h, y + h sum_j a_ij K_j) for all %d stages (fully implicit sum over all j), on every path" % n)
 
 
 def check_call_skeleton(ex, reg, src, implicit, adaptive):
